@@ -625,9 +625,16 @@ func main() {
 	mem := flag.Uint64("mem", 4<<30, "address-space limit of the child")
 	limit := flag.Duration("limit", 3*time.Second, "per-case deadline")
 	skip := flag.String("skip", "", "child: comma-separated ops not to run any more")
+	oneOp := flag.String("oneop", "", "run a single case: its operation")
+	oneIn := flag.String("onein", "", "run a single case: input bytes, hex")
+	oneStream := flag.String("onestream", "replay", "run a single case: its stream")
 	flag.Parse()
 
 	cs := genCases(*mode, *seed, *n)
+	if *oneOp != "" {
+		in, _ := hex.DecodeString(*oneIn)
+		cs = []Case{{I: 0, Stream: *oneStream, Op: *oneOp, In: *oneIn, Src: printable(in), Known: seriesKnown}}
+	}
 	out := hx.NewOut(os.Stdout)
 	if *child {
 		hx.LimitMemory(*mem)
@@ -650,7 +657,7 @@ func main() {
 		}
 		return
 	}
-	if err := runIsolated(cs, *mode, *seed, *n, *mem, *limit, out); err != nil {
+	if err := runIsolated(cs, *mode, *seed, *n, *mem, *limit, out, *oneOp, *oneIn, *oneStream); err != nil {
 		fmt.Fprintln(os.Stderr, err)
 		os.Exit(2)
 	}
@@ -661,7 +668,7 @@ func main() {
 // and after many the operation that keeps hanging is no longer run (its
 // remaining cases are reported as skipped, and are neither counted nor
 // compared).  Neither happens on a tree where every case returns.
-func runIsolated(cs []Case, mode string, seed uint64, n int, mem uint64, limit time.Duration, out *hx.Out) error {
+func runIsolated(cs []Case, mode string, seed uint64, n int, mem uint64, limit time.Duration, out *hx.Out, oneOp, oneIn, oneStream string) error {
 	const shortAfter, skipAfter = 5, 25
 	noReturn := map[string]int{}
 	total := 0
@@ -675,6 +682,9 @@ func runIsolated(cs []Case, mode string, seed uint64, n int, mem uint64, limit t
 		args := []string{"-mode", mode, "-seed", strconv.FormatUint(seed, 10), "-n", strconv.Itoa(n),
 			"-limit", lim.String(), "-skip", strings.Join(skip, ","),
 			"-child", "-from", strconv.Itoa(from), "-mem", strconv.FormatUint(mem, 10)}
+		if oneOp != "" {
+			args = append(args, "-oneop", oneOp, "-onein", oneIn, "-onestream", oneStream)
+		}
 		cmd := exec.Command(os.Args[0], args...)
 		stdout, err := cmd.StdoutPipe()
 		if err != nil {
